@@ -359,7 +359,6 @@ func findDone(w *world.World, id string) *world.App {
 	return nil
 }
 
-
 // ---------------------------------------------------------------------------------------------------------
 // C09: reservations
 func (e *Engine) checkC09(st *Step) {
